@@ -74,8 +74,8 @@ func (p pd) json(b []byte) string {
 	default:
 		out, _ = (&pmetric.JSONMarshaler{}).MarshalMetrics(x.(pmetric.Metrics))
 	}
-	if len(out) > 1200 {
-		return string(out[:1200]) + "…"
+	if len(out) > 6000 {
+		return string(out[:6000]) + "…"
 	}
 	return string(out)
 }
